@@ -37,13 +37,16 @@ def runMac (_prop : String) (f : List String) (obsS : String) : Verdict :=
     match parseTags tagsS with
     | none => badCase
     | some tags =>
-      let global : Option ClientCfg := if pfx == "UNSET" then none else some ⟨unhex pfx, tags, if cidS == "~" then none else some (unhex cidS)⟩
+      let configured : Option ClientCfg := if pfx == "UNSET" then none else some ⟨unhex pfx, tags, if cidS == "~" then none else some (unhex cidS)⟩
       let invs := invsS.splitOn ";"
+      let late := invs.contains "SET"
       let obs := obsS.splitOn ";"
       if invs.length ≠ obs.length then badCase else
-      let rec go (i : Nat) (is os : List String) (mp : List String) (v : Option (String × String)) (tg : List String) : Verdict :=
+      let rec go (i : Nat) (is os : List String) (mp : List String) (v : Option (String × String)) (tg : List String)
+          (global : Option ClientCfg) : Verdict :=
         match is, os with
         | inv :: is', o :: os' =>
+          if inv == "SET" then go (i + 1) is' os' ("set" :: mp) v ("late-set" :: tg) configured else
           match inv.splitOn "/" with
           | [e, k, vS, tp, s] =>
             match entryOf e, parsePairs tp with
@@ -58,13 +61,13 @@ def runMac (_prop : String) (f : List String) (obsS : String) : Verdict :=
                   let m := joinWith "," (tr.map fmtEv)
                   let evs := if o == "-" then [] else o.splitOn ","
                   let v' := match v with | some x => some x | none => ckInv global pairs.length evs tr
-                  go (i + 1) is' os' (m :: mp) v' (s!"arity-{pairs.length}" :: (if tr.any (fun x => match x with | .handled _ => true | _ => false) then "handled" else "sent") :: tg)
+                  go (i + 1) is' os' (m :: mp) v' (s!"arity-{pairs.length}" :: (if tr.any (fun x => match x with | .handled _ => true | _ => false) then "handled" else "sent") :: tg) global
             | _, _ => badCase
           | _ => badCase
         | _, _ =>
           let mps := joinWith ";" mp.reverse
           ⟨mps == obsS, obsS, mps, v, (if global.isNone then ["unset"] else []) ++ tg.eraseDups, false⟩
-      go 0 invs obs [] none []
+      go 0 invs obs [] none [] (if late then none else configured)
   | _ => badCase
 
 end Drv.MacrosE
